@@ -144,6 +144,16 @@ def run(ctx, run):
                 ("terminator byte (c1 == 15)", lambda a: a.rel == "==" and a.R is not None and a.R.const == 15),
             ]
             missing = [n_ for n_, p in need if not any(p(a) for a in ats)]
+            if any(m_.startswith("both bytes passed") for m_ in missing):
+                # the same test written per byte: `c1 < 0 || c2 < 0` leaves two atoms, one for each vbi_unpar8 result
+                okb = set()
+                for a in ats:
+                    if a.rel == ">=" and a.R is not None and a.R.const == 0 and a.L.node is not None:
+                        ce = f.exprs[ex.skip(f, a.L.node)]
+                        if ce["k"] == "ref" and _local_is_call_result(f, ce["name"], "vbi_unpar8"):
+                            okb.add(ce["name"])
+                if len(okb) >= 2:
+                    missing = [m_ for m_ in missing if not m_.startswith("both bytes passed")]
             key = "RF-DOM:%s:delivery" % tag
             if missing:
                 run.violation("RF-DOM", key, "the delivery `%s` is not dominated by: %s" % (ex.pretty(f, i)[:60], "; ".join(missing)),
